@@ -1,7 +1,7 @@
 (* Refl/IsoExamples.v -- C06: a small concrete instance of the external matching code and a few concrete states, used by the
    non-vacuity Examples (the premises of the theorems are satisfiable by non-trivial states). *)
 From Coq Require Import List NArith ZArith Bool Arith.
-From Muscle Require Import Gen.Consts Refl.Base Refl.BaseProofs Refl.Tree Refl.Matcher Refl.Traverse Refl.Session Refl.Server Refl.IsoModel.
+From Muscle Require Import Gen.Consts Refl.Base Refl.BaseProofs Refl.Tree Refl.Matcher Refl.Traverse Refl.Session Refl.Server Refl.IsoModel Refl.IsoOrd.
 Import ListNotations.
 
 (* clauses: "*" or one literal name; filters: none that reject *)
@@ -53,3 +53,17 @@ Proof.
   - reflexivity.
   - intros [x|] ks H k; cbn in *; [|discriminate]. inversion H; subst. cbn. rewrite N.eqb_eq. split; [intros ->; now left|intros [E|[]]; now subst].
 Qed.
+
+(* ordered children: 11 inserts two generated children under its node 7 (names "I<n>" = 1000 + n), moves the second before
+   the first; 10 aims the same commands at 11's node; a third child is inserted and one removed *)
+Definition ex_iname (n : N) : name := (1000 + n)%N.
+Definition ex_ohistory : list oevent :=
+  [ OAttach 10%N 1%N 10%N 0%N; OAttach 11%N 1%N 11%N 0%N;
+    OCmd 11%N (OX (XSetData 0%N [((false, [7%N]), 5%N)]));
+    OCmd 10%N (OX (XBase (CSubscribe false [(Abs [None; None; None; None], None)])));
+    OCmd 11%N (OInsert (Rel [Some 7%N], None) [(Some 99%N, 1%N); (Some 99%N, 2%N)]);
+    OCmd 11%N (OReorder [(Rel [Some 7%N; Some 1001%N], Some 1000%N)]);
+    OCmd 10%N (OBatch [OInsert (Abs [Some 1%N; Some 11%N; Some 7%N], None) [(Some 99%N, 9%N)];
+                       OReorder [(Abs [None; None; None; None], None); (Rel [Some 7%N; None], None)]]);
+    OCmd 11%N (OInsert (Rel [None], None) [(Some 1001%N, 3%N)]);
+    OCmd 11%N (OX (XRemoveData false [(Rel [Some 7%N; Some 1000%N], None)])) ].
